@@ -260,6 +260,19 @@ async def _main(case, obs, loop, net):
                         t["end"] = (kind, r["outcome"], r["t_call"], r["t_return"])
                     elif t["n"] == proc.txn_no and t["end"] is None:
                         t.setdefault("failed_ends", []).append((kind, r["outcome"], r["t_call"]))
+            elif kind == "commit_tmo":
+                # the application stops waiting for commit_transaction() (wait_for cancels the call; the commit itself
+                # goes on inside the producer)
+                async def commit_with_timeout():
+                    try:
+                        await asyncio.wait_for(p.commit_transaction(), st[1])
+                        return "committed"
+                    except asyncio.TimeoutError:
+                        return "gave_up"
+                r = await call(proc, "commit_tmo", commit_with_timeout)
+                for t in obs.txns:
+                    if t["n"] == proc.txn_no and t["end"] is None and r["outcome"][0] == "ok" and r.get("result") == "committed":
+                        t["end"] = ("commit", r["outcome"], r["t_call"], r["t_return"])
             elif kind in ("ctx_ok", "ctx_exc"):
                 # the body is left with an ordinary exception or with a BaseException (a cancelled task, a
                 # KeyboardInterrupt): either way the transaction must be aborted
